@@ -819,3 +819,61 @@ pub mod verif_hooks_poly {
         (0..len).map(|j| wks.dinv_modp[j].to_vec()).collect()
     }
 }
+
+/// Verification hooks (only with `--cfg yamaquasi_verif`): one block of polynomials through the real
+/// `mpqs_poly` (property C12).
+#[cfg(yamaquasi_verif)]
+pub mod verif_hooks_block {
+    use super::*;
+
+    /// Processes the polynomials of `sieve_for_polys(n, dbase, dstride)` (at most `maxpolys`) the way
+    /// `process_poly_block` does: chunks of 16, one `batch_inversion` per chunk, ONE workspace for the
+    /// whole block, the real `mpqs_poly` (roots at their real call site, then the sieve) per polynomial.
+    /// Returns per polynomial `(d, r, roots1, roots2)` as `mpqs_poly` left them in the workspace.
+    pub fn vh_poly_block(
+        n: &Uint,
+        fbase: &FBase,
+        mm: i64,
+        dbase: u128,
+        dstride: usize,
+        maxpolys: usize,
+    ) -> Vec<(u128, Uint, Vec<u32>, Vec<u32>)> {
+        let inverters: Vec<_> = (0..fbase.len())
+            .map(|idx| arith::Inverter::new(fbase.p(idx)))
+            .collect();
+        let maxlarge = fbase.bound() as u64;
+        let rels = RwLock::new(RelationSet::new(*n, fbase.len(), maxlarge));
+        let prefs = Preferences {
+            verbosity: Verbosity::Silent,
+            ..Preferences::default()
+        };
+        let s = SieveMPQS {
+            n: *n,
+            fbase,
+            inverters: &inverters,
+            maxlarge,
+            use_double: false,
+            interval_size: mm,
+            d_target: dbase,
+            rels: &rels,
+            prefs: &prefs,
+            polys_done: AtomicUsize::new(0),
+            target: AtomicUsize::new(usize::MAX),
+            done: AtomicBool::new(false),
+        };
+        let mut wks = Workspace::default();
+        let mut out = vec![];
+        let d_r_values = sieve_for_polys(&s.n, dbase, dstride);
+        for chunk in d_r_values.chunks(16) {
+            wks.batch_inversion(&s, chunk.iter().map(|&(d, _)| d).collect());
+            for (idx, (d, r)) in chunk.iter().enumerate() {
+                if out.len() >= maxpolys {
+                    return out;
+                }
+                mpqs_poly(&s, idx, *d, r, &mut wks);
+                out.push((*d, *r, wks.roots1.clone(), wks.roots2.clone()));
+            }
+        }
+        out
+    }
+}
